@@ -3,6 +3,7 @@ package scen
 import (
 	"context"
 	"fmt"
+	"strings"
 	"time"
 
 	erpc "github.com/henrylee2cn/erpc/v6"
@@ -16,6 +17,7 @@ func init() {
 	Sched["c03_frames"] = c03Frames
 	Sched["c03_pair"] = c03Pair
 	Sched["c03_slow"] = c03Slow
+	Sched["c03_big"] = c03Big
 	Sched["c03_deadline"] = c03Deadline
 }
 
@@ -55,6 +57,9 @@ func newC03srv(veto string, unknown bool) *c03srv {
 			return &unmarshalable{C: make(chan int)}, nil
 		case "block":
 			s.gate.Wait()
+		case "big":
+			r := strings.Repeat("B", 3000) // larger than the message size limit of the c03_big scenario
+			return &r, nil
 		}
 		r := "ok:" + *arg
 		return &r, nil
@@ -303,6 +308,46 @@ func c03Slow(p Params) func() {
 		vsched.Quiesce()
 		s.checkWire([]world.Frame{f1, f2}, raw, ctxt)
 		vsched.Logf("%v %s", firstPush, second)
+		raw.Close()
+		s.peer.Close()
+		vsched.Quiesce()
+		if l := vsched.Live(); l != 0 {
+			vsched.Failf("%d goroutines still blocked after close: %s | %s", l, vsched.BlockedDesc(), ctxt)
+		}
+	}
+}
+
+// c03Big: the peer runs with a small message size limit and a handler answers with more than that. The oversized
+// reply cannot be sent; the CALL is still answered exactly once (with an error reply) or the connection is closed,
+// and a following CALL is answered normally.
+func c03Big(p Params) func() {
+	proto := p.Get("proto", "raw")
+	return func() {
+		begin()
+		erpc.SetReadLimit(1024)
+		defer erpc.SetReadLimit(0)
+		s := newC03srv("none", false)
+		s.proto = proto
+		raw, sc := vnet.Pipe(vnet.NewAddr(), vnet.NewAddr())
+		if _, st := s.peer.ServeConn(sc, world.Proto(proto)); !st.OK() {
+			vsched.Failf("ServeConn: %v", st)
+		}
+		order := vsched.Choose(2, "order")
+		f1 := world.Frame{Seq: 7, Mtype: erpc.TypeCall, Method: s.callRoute, Codec: 'j', Body: []byte(`"big"`)}
+		f2 := world.Frame{Seq: 8, Mtype: erpc.TypeCall, Method: s.callRoute, Codec: 'j', Body: []byte(`"ret"`)}
+		if order == 1 {
+			f1, f2 = f2, f1
+		}
+		ctxt := "limit=1024 " + f1.String() + " " + f2.String()
+		b1, _ := world.EncodeFrame(proto, f1)
+		b2, _ := world.EncodeFrame(proto, f2)
+		raw.Write(b1)
+		vsched.Quiesce()
+		raw.Write(b2)
+		vsched.Quiesce()
+		erpc.SetReadLimit(0) // the harness decodes what the server wrote with the same protocol code: without the limit
+		s.checkWire([]world.Frame{f1, f2}, raw, ctxt)
+		vsched.Logf("%d", order)
 		raw.Close()
 		s.peer.Close()
 		vsched.Quiesce()
